@@ -64,7 +64,7 @@ func symCmd(argv []string) int {
 	eng.Cfg.MaxPaths = *maxPaths
 	eng.Cfg.Solver = *solver
 	_ = log
-	rep := eng.Explore(fn, checks.Ints(args...), nil)
+	rep := eng.Explore(fn, checks.Ints(args...), nil, nil)
 	printReport(rep)
 	return 0
 }
